@@ -16,7 +16,7 @@ import (
 // signing and verification are re-derived from the wire format with the Go
 // standard library only.
 
-var mCurve = elliptic.P256()
+var c25Curve = elliptic.P256()
 
 type mKey struct {
 	d    *big.Int
@@ -26,7 +26,7 @@ type mKey struct {
 
 func newMKeyD(d *big.Int) *mKey {
 	k := &mKey{d: new(big.Int).Set(d)}
-	k.x, k.y = mCurve.ScalarBaseMult(pad32(d))
+	k.x, k.y = c25Curve.ScalarBaseMult(pad32(d))
 	k.comp = append([]byte{byte(2 + k.y.Bit(0))}, pad32(k.x)...)
 	return k
 }
@@ -36,7 +36,7 @@ func newMKey(priv []byte) *mKey { return newMKeyD(new(big.Int).SetBytes(priv)) }
 // negated returns the key N-d whose public point is (x, -y): same X
 // coordinate, the other compressed prefix.
 func (k *mKey) negated() *mKey {
-	return newMKeyD(new(big.Int).Sub(mCurve.Params().N, k.d))
+	return newMKeyD(new(big.Int).Sub(c25Curve.Params().N, k.d))
 }
 
 func (k *mKey) uncompressed(prefix byte) []byte {
@@ -55,7 +55,7 @@ func pad32(v *big.Int) []byte {
 // sign produces r||s (32+32 bytes big endian) over sha256(data); the nonce
 // comes from the seeded stream so runs are reproducible.
 func (k *mKey) sign(rnd *rand.Rand, data []byte) []byte {
-	N := mCurve.Params().N
+	N := c25Curve.Params().N
 	dg := sha256.Sum256(data)
 	e := new(big.Int).SetBytes(dg[:])
 	for {
@@ -66,7 +66,7 @@ func (k *mKey) sign(rnd *rand.Rand, data []byte) []byte {
 		if kk.Sign() == 0 {
 			continue
 		}
-		x, _ := mCurve.ScalarBaseMult(pad32(kk))
+		x, _ := c25Curve.ScalarBaseMult(pad32(kk))
 		rr := new(big.Int).Mod(x, N)
 		if rr.Sign() == 0 {
 			continue
@@ -85,7 +85,7 @@ func (k *mKey) sign(rnd *rand.Rand, data []byte) []byte {
 // malleate returns (r, N-s): another valid signature of the same signer over
 // the same data.
 func malleate(sig []byte) []byte {
-	N := mCurve.Params().N
+	N := c25Curve.Params().N
 	s := new(big.Int).SetBytes(sig[32:])
 	s.Sub(N, s)
 	return append(append([]byte{}, sig[:32]...), pad32(s)...)
@@ -101,20 +101,20 @@ func mDecodePoint(b []byte) (x, y *big.Int, ok bool) {
 		if len(b) != 33 {
 			return nil, nil, false
 		}
-		x, y = elliptic.UnmarshalCompressed(mCurve, b)
+		x, y = elliptic.UnmarshalCompressed(c25Curve, b)
 		return x, y, x != nil
 	case 4:
 		if len(b) != 65 {
 			return nil, nil, false
 		}
-		x, y = elliptic.Unmarshal(mCurve, b)
+		x, y = elliptic.Unmarshal(c25Curve, b)
 		return x, y, x != nil
 	case 6, 7:
 		if len(b) != 65 {
 			return nil, nil, false
 		}
 		u := append([]byte{4}, b[1:]...)
-		x, y = elliptic.Unmarshal(mCurve, u)
+		x, y = elliptic.Unmarshal(c25Curve, u)
 		return x, y, x != nil
 	}
 	return nil, nil, false
@@ -125,7 +125,7 @@ func mVerify(x, y *big.Int, data, sig []byte) bool {
 		return false
 	}
 	dg := sha256.Sum256(data)
-	return ecdsa.Verify(&ecdsa.PublicKey{Curve: mCurve, X: x, Y: y}, dg[:], new(big.Int).SetBytes(sig[:32]), new(big.Int).SetBytes(sig[32:]))
+	return ecdsa.Verify(&ecdsa.PublicKey{Curve: c25Curve, X: x, Y: y}, dg[:], new(big.Int).SetBytes(sig[:32]), new(big.Int).SetBytes(sig[32:]))
 }
 
 func mVarBytes(b []byte) []byte {
